@@ -212,6 +212,9 @@ class Recorder:
       if k in truth:
         self.epoch.setdefault(k, truth[k].id)
         self.epoch_ids[truth[k].id].add(k)
+        # the id is in use again: an earlier opportunity to forget it says
+        # nothing about its next re-use
+        self.prunable_ids.discard(truth[k].id)
 
   def final_check(self):
     """After the flushing suggest: every completed trial given exactly once."""
